@@ -423,12 +423,19 @@ func (w *W) exec(task int, op *scen.Op) {
 	case "name":
 		w.ret(task, map[string]string{"name": l.Name()})
 	case "sublogger":
-		res := l.Sublogger(op.Name)
+		name := op.Name
+		if name == "" && op.R > 0 {
+			// by the name another logger actually carries
+			if t := w.logger(op.R); t != nil {
+				name = t.Name()
+			}
+		}
+		res := l.Sublogger(name)
 		nm := ""
 		if res != nil {
 			nm = res.Name()
 		}
-		w.ret(task, map[string]any{"id": w.idOfEntry(res), "name": nm})
+		w.ret(task, map[string]any{"id": w.idOfEntry(res), "name": nm, "asked": name})
 	case "each":
 		type visit struct {
 			ID    int `json:"id"`
